@@ -9,6 +9,7 @@
    input in the check, not proved. *)
 From Coq Require Import NArith List.
 From SkV Require Import Bytes Wire Framing Dispatch DispatchProofs.
+From SkV Require Vlq Codec BoundProofs.
 Import ListNotations.
 
 Theorem C20_state_is_handled_prefix : forall max shared handle c s data,
@@ -33,7 +34,25 @@ Theorem C20_bad_framing_dropped : forall max shared handle c s data r' err,
   receive max (c_recv c) data = (r', [], Some err) -> on_read max shared handle c s data = Dropped shared s.
 Proof. exact bad_framing_dropped. Qed.
 
+(* resource bound of decoding: whatever element count a message DECLARES, a successful decode of any list the protocol
+   carries (start hashes, inventory items, peers, inputs, outputs, transactions) yields no more elements than bytes were
+   received, and a declared count above the remaining input is a decode failure (no work proportional to the number) *)
+Theorem C20_protocol_lists_bounded :
+  (forall bs l r, Codec.dec_list Wire.dec_hash32 bs = Some (l, r) -> (length l + length r <= length bs)%nat) /\
+  (forall bs l r, Codec.dec_list Wire.dec_item bs = Some (l, r) -> (length l + length r <= length bs)%nat) /\
+  (forall bs l r, Codec.dec_list Wire.dec_peer bs = Some (l, r) -> (length l + length r <= length bs)%nat) /\
+  (forall bs l r, Codec.dec_list Codec.dec_input bs = Some (l, r) -> (length l + length r <= length bs)%nat) /\
+  (forall bs l r, Codec.dec_list Codec.dec_output bs = Some (l, r) -> (length l + length r <= length bs)%nat) /\
+  (forall bs l r, Codec.dec_list Codec.dec_tx bs = Some (l, r) -> (length l + length r <= length bs)%nat).
+Proof. exact BoundProofs.protocol_lists_bounded. Qed.
+
+Theorem C20_declared_count_exceeds_input_rejected : forall bs n r0,
+  Vlq.vlq_dec bs = Some (n, r0) -> (N.of_nat (length r0) < n)%N -> Codec.dec_list Wire.dec_hash32 bs = None.
+Proof. exact BoundProofs.getblocks_declared_count_exceeds_input_rejected. Qed.
+
 Print Assumptions C20_state_is_handled_prefix.
 Print Assumptions C20_invariant_contained.
 Print Assumptions C20_malformed_dropped.
 Print Assumptions C20_bad_framing_dropped.
+Print Assumptions C20_protocol_lists_bounded.
+Print Assumptions C20_declared_count_exceeds_input_rejected.
